@@ -9,7 +9,7 @@ RULE = ("AnkoCall holds the conversion table Conv(value kind, parameter type) an
         "total, and emits the demanded outcome. For each case a host function of that signature is built with reflect.MakeFunc, called from a script with script-made "
         "arguments, and the values it RECEIVES (and their dynamic types), the number of calls and the returned result are compared; scenario checks cover identity "
         "round trips of 20 Go values, exported fields through values and pointers, value/pointer-receiver and variadic methods, multiple results and callbacks "
-        "(arguments, result conversion, error surfacing). distinct_nontrivial = non-open table cases + scenarios.")
+        "(arguments, result conversion, error surfacing). Two more tables of AnkoCall are enumerated by TLC and replayed: Results (0..3 results over 12 kinds incl. typed nil slice/map/pointer, nil and non-nil error, nil and non-nil interface: each arrives with its own dynamic type, several as a list) and MethodReachable (value- and pointer-receiver methods with 0..2 arguments on struct / named int / named map / named slice receivers and pointers to them). distinct_nontrivial = non-open table cases + scenarios.")
 
 
 def run(ctx):
@@ -40,6 +40,26 @@ def run(ctx):
             seen.add(key)
             vlib.violation(ctx, "%s: signature %s%s called as %r: expected %s, got %s" % (m["what"], m["case"]["c"]["fixed"], (" ..." + m["case"]["c"]["vtype"]) if m["case"]["c"]["vtype"] else "",
                                                                                            m["src"], m.get("expected"), m.get("got")), {"kind": "table", "case": m["case"], "src": m["src"], "what": m["what"]})
+    # the results table and the method-reach table
+    for shard in ("results", "methods"):
+        r = vlib.run_tlc(ctx, "MC_AnkoCall", "MC_AnkoCall_%s.cfg" % shard, workers=2, timeout=900, want_lines=False, xss="256m")
+        vlib.tlc_ok(ctx, r, "MC_AnkoCall " + shard)
+        res = os.path.join(r.dir, shard + ".json")
+        vlib.run_cmd(ctx, [binp, shard, os.path.join(r.dir, "tlc.out"), res], timeout=900)
+        x = json.load(open(res))
+        if x["cases"] != r.generated // 2:
+            raise Broken("%s table: %d cases replayed, TLC emitted %d" % (shard, x["cases"], r.generated // 2))
+        ctx.cov["evaluations"] += x["cases"]
+        ctx.cov["distinct_nontrivial"] += x["cases"]
+        ctx.cov["traces_validated_against_impl"] += x["cases"]
+        ctx.cov.setdefault("table_families", {})[shard] = {"cases": x["cases"], "mismatches": x["n_mismatch"]}
+        seen = set()
+        for m in (x.get("mismatches") or []):
+            key = m["what"][:90]
+            if key in seen or len(seen) > 12:
+                continue
+            seen.add(key)
+            vlib.violation(ctx, "%s: %r gives %s, the table demands %s" % (m["what"], m["src"], m.get("got"), m.get("expected")), {"kind": "scenario", "src": m["src"], "what": shard + ": " + m["what"], "table": shard})
     res = os.path.join(ctx.work, "scen.json")
     vlib.run_cmd(ctx, [binp, "scenarios", res])
     x = json.load(open(res))
@@ -54,6 +74,9 @@ def run(ctx):
 def replay(ctx, path):
     binp = vlib.build_harness(ctx, "callharness")
     p = json.load(open(path))
+    if p["kind"] == "scenario" and p.get("table"):
+        print("re-run bin/check C11 (table cases are regenerated by TLC)")
+        return run(ctx)
     if p["kind"] == "scenario":
         res = os.path.join(ctx.work, "scen.json")
         vlib.run_cmd(ctx, [binp, "scenarios", res])
